@@ -74,6 +74,16 @@ fn download_script(ep: u32, path: &[&[u8]], szx: u8, nreq: usize, label: &str) -
     Transfer { ep, code: 1, path: path.iter().map(|s| s.to_vec()).collect(), requests, label: label.to_string() }
 }
 
+fn with_query(mut t: Transfer, query: &[&[u8]]) -> Transfer {
+    for r in t.requests.iter_mut() {
+        for q in query {
+            r.extra.push((15, q.to_vec()));
+        }
+    }
+    t.label = format!("{} ?{}", t.label, query.iter().map(|q| String::from_utf8_lossy(q).to_string()).collect::<Vec<_>>().join("&"));
+    t
+}
+
 fn upload_script(ep: u32, code: u8, path: &[&[u8]], szx: u8, nblocks: usize, then_fetch: usize, label: &str) -> Transfer {
     let s = szx_size(szx);
     let mut t = Transfer { ep, code, path: path.iter().map(|s| s.to_vec()).collect(), requests: vec![], label: label.to_string() };
@@ -290,6 +300,8 @@ fn sets(nreq: usize, three: bool) -> Vec<SetSpec> {
         SetSpec { name: "path-segmentation([a,b]-vs-[a/b])", transfers: vec![download_script(1, &ab, 1, nreq, "GET [a,b]"), download_script(1, &a_slash_b, 1, nreq, "GET [a/b]")] },
         SetSpec { name: "path-prefix([a]-vs-[a,b])", transfers: vec![upload_script(1, 3, &a, 0, nreq, 0, "PUT [a]"), upload_script(1, 3, &ab, 0, nreq, 0, "PUT [a,b]")] },
         SetSpec { name: "empty-path-vs-[x]", transfers: vec![download_script(1, &none, 0, nreq, "GET []"), download_script(1, &x, 0, nreq, "GET [x]")] },
+        SetSpec { name: "path-vs-shorter-path-plus-query([fw,slot1]-vs-[fw]?slot1)", transfers: vec![download_script(1, &[b"fw", b"slot1"], 0, nreq, "GET [fw,slot1]"), with_query(download_script(1, &[b"fw"], 0, nreq, "GET [fw]"), &[b"slot1"])] },
+        SetSpec { name: "path+query-collision([a,b]?c-vs-[a]?b&c)", transfers: vec![with_query(upload_script(1, 3, &ab, 0, nreq, 0, "PUT [a,b]"), &[b"c"]), with_query(upload_script(1, 3, &a, 0, nreq, 0, "PUT [a]"), &[b"b", b"c"])] },
         SetSpec { name: "root-vs-one-empty-segment", transfers: vec![download_script(1, &none, 0, nreq, "GET []"), download_script(1, &[b""], 0, nreq, "GET [\"\"]")] },
         SetSpec { name: "leading-empty-segment([x]-vs-[,x])", transfers: vec![upload_script(1, 3, &x, 0, nreq, 0, "PUT [x]"), upload_script(1, 3, &[b"", b"x"], 0, nreq, 0, "PUT [\"\",x]")] },
         SetSpec { name: "trailing-empty-segment([x]-vs-[x,])", transfers: vec![download_script(1, &x, 1, nreq, "GET [x]"), download_script(1, &[b"x", b""], 1, nreq, "GET [x,\"\"]")] },
